@@ -23,7 +23,8 @@ def main():
             cid = re.search(r"run_(C\d+)\.log", lg).group(1)
             txt = open(lg, errors="replace").read()
             n = len(re.findall(r"^VIOLATION property=", txt, re.M))
-            ran.append("git -C /repo apply seeded/%s/patch.diff; tools/check %s --tier quick; git -C /repo checkout -- ." % (os.path.basename(d), cid))
+            ran.append("python3 tools/seedpar.py %s:%s   (scratch worktree of /repo's HEAD with seeded/%s/patch.diff applied; tools/check %s --tier quick with VERIF_REPO pointing there)"
+                       % (os.path.basename(d), cid, os.path.basename(d), cid))
             (det if n else missed).append(cid)
         m["detected_by"] = det
         m["not_detected_by"] = missed
